@@ -17,7 +17,7 @@ ASSUME_COMMON = [
 PROPS = {
     "C01": {
         "families": ["c01a"],
-        "runs": {"quick": 4000, "thorough": 60000},
+        "runs": {"quick": 20000, "thorough": 300000},
         "level": "exploration",
         "rule": "one evaluation = one simulated run of the real protocol stack over a seeded traffic plan (well-formed, mutated, noisy telegrams; seeded chunking, latencies, stalls, handler configuration). "
                 "A run is non-trivial if the reference parser found at least one telegram that MUST be reported or at least one invalid fragment; distinct = distinct trace hashes among those runs.",
@@ -27,7 +27,7 @@ PROPS = {
     },
     "C02": {
         "families": ["c02", "c02e", "c01b"],
-        "runs": {"quick": 6000, "thorough": 90000},
+        "runs": {"quick": 30000, "thorough": 400000},
         "level": "fault_enumeration",
         "rule": "one evaluation = one simulated run; family c02e enumerates, per seeded base scenario (request, configuration), every alternative of the addressed participant's reaction (ACK/NAK/other/silence/SYN at either attempt, response good/bad CRC/short/long/none at either attempt) and an echo mismatch at every transmitted byte position 0..23; c02/c01b add random multi-fault runs. Non-trivial = at least one own exchange reached the wire; distinct = distinct trace hashes among those.",
         "components": COMPONENTS_L1,
@@ -35,7 +35,7 @@ PROPS = {
     },
     "C03": {
         "families": ["c03", "c01a", "c01b", "c04", "c15"],
-        "runs": {"quick": 6000, "thorough": 90000},
+        "runs": {"quick": 30000, "thorough": 400000},
         "level": "exploration",
         "rule": "one evaluation = one simulated run; every write of ebusd to the device is judged by an entitlement monitor from the bytes the kernel had handed to ebusd at that instant. Non-trivial = ebusd transmitted at least once or was read-only with requests pending; distinct = distinct trace hashes among those.",
         "components": COMPONENTS_L1,
@@ -44,7 +44,7 @@ PROPS = {
     "C04": {
         "families": ["c04", "c04e", "c03"],
         "claims": ["C04"],   # use-after-free / double free of request objects and hangs are what C04 forbids: sanitizer and watchdog hits in these families count for C04
-        "runs": {"quick": 6000, "thorough": 90000},
+        "runs": {"quick": 30000, "thorough": 400000},
         "level": "fault_enumeration",
         "rule": "one evaluation = one simulated run with up to 6 concurrently submitting caller threads (sendAndWait, addRequest(wait), fire-and-forget with self deletion, restarting callbacks, submissions from the bus thread's own ps_empty notification); family c04e sweeps, per base scenario, 8 device fault kinds over the I/O call positions 10,13,..,187 of the device fd. Non-trivial = at least one request was submitted and at least one fault fired or two threads were runnable at once; distinct = distinct trace hashes among those.",
         "components": COMPONENTS_L1,
@@ -52,7 +52,7 @@ PROPS = {
     },
     "C15": {
         "families": ["c15"],
-        "runs": {"quick": 5000, "thorough": 80000},
+        "runs": {"quick": 25000, "thorough": 300000},
         "level": "exploration",
         "rule": "one evaluation = one simulated run in answer mode with 1..5 registered answers (ID length 0..4, with/without source restriction, own slave/master or foreign destination) and scripted requesters sending telegrams derived from them (same/shorter/longer/mutated ID, good/bad CRC, NAK of the response). Non-trivial = at least one telegram addressed to an own address with a matching answer; distinct = distinct trace hashes among those.",
         "components": COMPONENTS_L1,
